@@ -222,20 +222,19 @@ func parseOperationDefinition(parser *Parser) (ast.Node, error) {
  * OperationType : one of query mutation subscription
  */
 func parseOperationType(parser *Parser) (string, error) {
-	operationToken, err := expect(parser, lexer.NAME)
-	if err != nil {
+	operationToken := parser.Token
+	if operationToken.Kind == lexer.NAME {
+		switch operationToken.Value {
+		case ast.OperationTypeQuery, ast.OperationTypeMutation, ast.OperationTypeSubscription:
+		default:
+			// report the bad name itself, before the lexer looks at what follows it
+			return "", unexpected(parser, operationToken)
+		}
+	}
+	if _, err := expect(parser, lexer.NAME); err != nil {
 		return "", err
 	}
-	switch operationToken.Value {
-	case ast.OperationTypeQuery:
-		return operationToken.Value, nil
-	case ast.OperationTypeMutation:
-		return operationToken.Value, nil
-	case ast.OperationTypeSubscription:
-		return operationToken.Value, nil
-	default:
-		return "", unexpected(parser, operationToken)
-	}
+	return operationToken.Value, nil
 }
 
 /**
